@@ -383,6 +383,7 @@ static void op_gapply2(Cur& c, std::ostream& o)
 {
   typedef LAFEM::DenseVector<Q, Index> VT;
   typedef Global::Vector<VT, MirrorT> GV;
+  const bool alias = c.idx() != 0u, transp = c.idx() != 0u;
   Q alpha = Q::parse(c.str());
   auto ps = read_decomp(c);
   std::vector<std::vector<Index>> ords;
@@ -396,16 +397,50 @@ static void op_gapply2(Cur& c, std::ostream& o)
   std::vector<VT> loc;
   for(std::size_t r = 0; r < ps.size(); ++r)
   {
-    // Global::Matrix::apply(r, x, y, alpha) line by line; r.sync_0() is the emulated exchange below
-    GV rv(G.gates[r].get(), VT(ps[r].n));
+    // Global::Matrix::apply / apply_transposed (r, x, y, alpha) line by line; r.sync_0() is the emulated exchange below.
+    // alias: r and y are THE SAME Global::Vector object (allowed by the documentation of these overloads)
+    GV fresh(G.gates[r].get(), VT(ps[r].n, Q(0)));
+    GV& rv = alias ? ys[r] : fresh;
     rv.copy(ys[r]);
     rv.from_1_to_0();
-    mats[r].apply(rv.local(), xs[r].local(), rv.local(), alpha);
+    if(transp) mats[r].apply_transposed(rv.local(), xs[r].local(), rv.local(), alpha);
+    else mats[r].apply(rv.local(), xs[r].local(), rv.local(), alpha);
     loc.push_back(rv.local().clone());
   }
   if(!emulated_sync0(G, loc, ords)) { o << "DEADLOCK"; return; }
   o << "V";
   for(auto& v : loc) show_vec(o, v);
+}
+
+// Global::Vector members with aliased operands: copy onto itself, axpy(x = *this), scale(*this), component_product(*this, *this),
+// then sync_1 (from_1_to_0 + exchange) and Gate::dot(x, x) with both arguments the same object
+template<typename VT_>
+static void op_valias(Cur& c, std::ostream& o)
+{
+  typedef Global::Vector<VT_, MirrorT> GV;
+  Q a = Q::parse(c.str()), b = Q::parse(c.str());
+  auto ps = read_decomp(c);
+  std::vector<std::vector<Index>> ords;
+  for(std::size_t r = 0; r < ps.size(); ++r) ords.push_back(read_idx(c));
+  Gates<VT_> G(ps);
+  std::vector<VT_> loc;
+  Q dot(0);
+  for(std::size_t r = 0; r < ps.size(); ++r)
+  {
+    GV rv(G.gates[r].get(), make_vec<VT_>(ps[r].n, read_rats(c)));
+    rv.copy(rv);
+    rv.axpy(rv, a);
+    rv.scale(rv, b);
+    rv.component_product(rv, rv);
+    const auto& g = *G.gates[r];
+    dot = dot + (g.get_ranks().empty() ? rv.local().dot(rv.local()) : g.get_freqs().triple_dot(rv.local(), rv.local()));
+    rv.from_1_to_0();
+    loc.push_back(rv.local().clone());
+  }
+  if(!emulated_sync0(G, loc, ords)) { o << "DEADLOCK"; return; }
+  o << "V";
+  for(auto& v : loc) show_vec(o, v);
+  o << " D " << dot.str();
 }
 
 static void op_gdiag(Cur& c, std::ostream& o)
@@ -534,6 +569,7 @@ static bool dispatch(const std::string& op, Cur& c, std::ostream& o, Index bs)
   else if(op == "norm") op_norm<VT_>(c, o);
   else if(op == "vmax") op_vmax<VT_>(c, o);
   else if(op == "vops") op_vops<VT_>(c, o);
+  else if(op == "valias") op_valias<VT_>(c, o);
   else if(op == "mgather") op_mirror<VT_>(c, o, false, bs);
   else if(op == "mscatter") op_mirror<VT_>(c, o, true, bs);
   else return false;
@@ -559,7 +595,7 @@ static void handle(const verif::Tokens& t, std::ostream& o)
   if(op == "spljoin") { op_splitter(c, o, true); return; }
   if(op == "splsplit") { op_splitter(c, o, false); return; }
   if(op == "freqs" || op == "sync0" || op == "sync1" || op == "dot" || op == "mgather" || op == "mscatter"
-    || op == "norm" || op == "vmax" || op == "vops")
+    || op == "norm" || op == "vmax" || op == "vops" || op == "valias")
   {
     Index bs = c.idx();
     bool ok = false;
